@@ -4,7 +4,8 @@ import workloads
 from session import Session, ServerDied
 
 LEVEL = 'model_checking'
-RULE = ('The reference model of persistence is small (SAVE stores the dataset, restart loads the last dump minus what '
+RULE = ('SAVE - changes of ONE kind - SAVE - restart histories for twelve kinds of change (direct, blocking pop answered at once, scripts ending normally / in an error / by digest behind a failing pcall, EXEC, deadlines, pops to nothing, FLUSHDB and RENAME, streams, TTL only, nothing) are validated like the round trips. '
+        'The reference model of persistence is small (SAVE stores the dataset, restart loads the last dump minus what '
         'expired: spec/Ferrous.tla CmdSAVE/Restarted, model-checked inside MC_Persist); the decision is by trace validation of '
         'round trips on the real server: datasets of every type x sizes around the length-encoding boundaries (0/1/63/64/'
         '16383/16384/65536+) x all 16 databases x TTLs shorter and longer than the downtime x strings equal to internal '
